@@ -261,6 +261,25 @@ def case_coverage(rng: Any, ctx: Ctx, index: int) -> None:
             LOG.violation('C17', 'C17.coverage', 'get_coverage/sum', f'sum {int(cov.sum())} != {n} samples')
     guarded('C17.coverage', judge)
 
+    if index % 3 == 1:
+        # a non-HEALPix landscape whose world coordinates ARE the pixel coordinates: maps with more than six pixels along an axis
+        # (coordinates beyond 2 pi), all samples inside the map and away from the half-pixel borders
+        shape2 = (int(rng.integers(1, 13)), int(rng.integers(1, 13)))
+        gl = GridLandscape(shape2, 'I', np.float32)
+        cx = rng.integers(0, shape2[1], n) + rng.uniform(-0.4, 0.4, n)       # first pixel coordinate runs along the last array axis
+        cy = rng.integers(0, shape2[0], n) + rng.uniform(-0.4, 0.4, n)
+        gs = Sampling(jnp.asarray(cx.astype(fdt)), jnp.asarray(cy.astype(fdt)), jnp.zeros(n, fdt))
+
+        def judge_grid() -> None:
+            cov = np.asarray(gl.get_coverage(gs))
+            ref = np.bincount(ref_index(shape2[::-1], [cx, cy], 'even'), minlength=shape2[0] * shape2[1]).reshape(shape2)
+            LOG.evaluated('C17.coverage')
+            LOG.count('C17.coverage.grid', f'{"beyond-2pi" if max(shape2) > 7 else "small"}')
+            if cov.shape != ref.shape or not np.array_equal(cov, ref):
+                LOG.violation('C17', 'C17.coverage', 'get_coverage/grid-landscape/not-histogram',
+                              f'map {shape2}, {n} in-map samples: coverage differs from the histogram of the pixel coordinates (sum {int(cov.sum())})')
+        guarded('C17.coverage', judge_grid)
+
     if index % 4 == 0:
         # a landscape with a frequency axis: the coverage has the landscape's shape and still sums to the number of samples
         from furax.landscapes import FrequencyLandscape
